@@ -14,3 +14,4 @@ import RelicVerif.Props.C11
 import RelicVerif.Props.C12
 import RelicVerif.Props.C04
 import RelicVerif.Props.C06
+import RelicVerif.Props.C13
